@@ -1,9 +1,10 @@
 (* C17 -- behaviour does not depend on sequence-number origins, even across wraparound.
    Property theorems only.  Proofs: Proof/SerialP.v (laws of the GENERATED serial
-   arithmetic of utils.py), Proof/SctpShiftP.v (SCTP receiver), Proof/JitterShiftP.v
+   arithmetic of utils.py), Proof/SctpShiftP.v (SCTP receiver), Proof/SctpTxShiftP.v (SCTP sender), Proof/JitterShiftP.v
    (jitter buffer), Proof/StatsShiftP.v (receiver statistics). *)
 From Coq Require Import ZArith List Bool.
 From AV Require Import Gen.Utils Gen.SctpConst Model.SctpRecv Proof.SerialP Proof.SctpC01P Proof.SctpShiftP.
+From AV Require Model.SctpTx Proof.SctpTxShiftP.
 From AV Require Model.Jitter Model.Stats Proof.JitterP Proof.JitterInvP Proof.JitterShiftP Proof.StatsRunP Proof.StatsShiftP.
 Import ListNotations.
 Local Open Scope Z_scope.
@@ -65,6 +66,21 @@ Proof.
   rewrite H. cbn [snd]. rewrite map_map. apply map_ext. intros o. apply out_msgs_shout.
 Qed.
 Print Assumptions C17_sctp_receiver_shift.
+
+(* 2b. SCTP sender: for ANY initial TSN, ANY delta and ANY input list (messages handed to
+   _send, SACKs with any cumulative TSN and gap blocks, T3 expiries, transmit runs) with
+   32-bit TSNs: the sender started at t + delta (mod 2^32) and fed the inputs with every TSN
+   shifted by delta reaches the state of the unshifted sender with every TSN field shifted by
+   delta -- same congestion window, flight size, flags, timers, queue lengths -- and emits
+   the same outputs (DATA transmissions with the same send counts, FORWARD-TSN chunks with
+   the same stream list) with TSNs shifted by delta. *)
+Module Tx := AV.Model.SctpTx. Module TS := AV.Proof.SctpTxShiftP.
+Theorem C17_sctp_sender_shift : forall d t rw is,
+  r32 t -> Forall TS.wf_shift is ->
+  Tx.run (Tx.init (sh d t) rw) (map (TS.shi d) is) =
+  (TS.shs d (fst (Tx.run (Tx.init t rw) is)), map (map (TS.shout d)) (snd (Tx.run (Tx.init t rw) is))).
+Proof. exact TS.sender_shift_invariant. Qed.
+Print Assumptions C17_sctp_sender_shift.
 
 (* 3. Jitter buffer: shifting every RTP sequence number by any delta (mod 2^16) yields
    identical PLI flags and released frames; shifting every timestamp (mod 2^32) only
